@@ -16,7 +16,7 @@ type Params struct {
 	Part            string
 	Driver          Driver
 	Quick, Thorough int // histories per tier
-	BulkPercent     int // share of histories of the "bulk" profile (>1 MiB cumulative, automatic rotation)
+	BulkEvery       int // every n-th history is of the "bulk" profile (>1 MiB cumulative, automatic rotation)
 	// floors below which the part is inconclusive (per tier: quick, thorough)
 	MinCuts      [2]int64
 	MinAutoRot   int64
@@ -50,7 +50,7 @@ func RunCheck(t *testing.T, p Params) {
 			Violation: func(sig string, w map[string]any) { run.Violation(sig, w) },
 			Distinct:  run.Distinct,
 		}
-		st, desc := RunHistory(p.Driver, i, seed, root, p.BulkPercent, sink)
+		st, desc := RunHistory(p.Driver, i, seed, root, p.BulkEvery, sink)
 		run.Eval(1)
 		if i < 4 {
 			run.Sample(desc)
